@@ -23,11 +23,11 @@ RULE = ('operation sequences over {copy,rw,ro,rgb,bgr,gray,rw_rgb,rw_bgr,ro_rgb,
 ASSUMPTIONS = ['start arrays own their data (a read-only view of a foreign writable buffer is not generated)',
                'GRAY conversion reference is 0.299/0.587/0.114 luminance +-1',
                'sharing that the documentation leaves unspecified (Frame(frame), copy() of read-only) follows the real object']
-EXHAUSTIVE = 'all sequences of length <= 3 (quick) / <= 4 (thorough) over 38 (op,target) letters x 18 (quick) / 6 (len 4) starts'
+EXHAUSTIVE = 'all sequences of length <= 3 (quick) / <= 4 (thorough) over 40 (op,target) letters x 18 (quick) / 6 (len 4) starts'
 
 ACCESSORS = ['copy', 'rw', 'ro', 'rgb', 'bgr', 'gray', 'rw_rgb', 'rw_bgr', 'ro_rgb', 'ro_bgr']
 OTHER = ['image', 'jpg', 'pickle', 'write', 'new_from_frame', 'reinterpret', 'new_from_array', 'from_jpg_dims',
-         'from_jpg_decoded']
+         'from_jpg_decoded', 'from_jpg_lazy']      # from_jpg_lazy: the monitor does not read .image of the new frame until an operation did, so accessors meet a jpg-only frame
 OPS = ACCESSORS + OTHER
 LETTERS = [(op, tgt) for op in OPS for tgt in ('root', 'last')]
 SIZES = [(4, 6), (1, 1), (9, 5)]
@@ -168,6 +168,9 @@ class Machine:
             if a.flags.writeable:
                 raise Viol(f'ro-made-writable:{op}', f'an array observed read-only is writable after {op}')
         for h in self.live:
+            if h.born == 'from_jpg_lazy' and getattr(h.f, '_Frame__image', None) is False:
+                self.stats['undecoded_jpg_frames_left_alone'] = self.stats.get('undecoded_jpg_frames_left_alone', 0) + 1
+                continue        # still jpg-only: reading .image here would decode it and hide what accessors do on jpg-only frames
             img = h.f.image
             self.stats['frame_checks'] = self.stats.get('frame_checks', 0) + 1
             if img is None:
@@ -302,11 +305,11 @@ class Machine:
             res = Frame(src.f.image, {'k': -1}, src.fmt)
             self._adopt(res, src, src.fmt, 'Frame(array)')
             return
-        if op in ('from_jpg_dims', 'from_jpg_decoded'):
+        if op in ('from_jpg_dims', 'from_jpg_decoded', 'from_jpg_lazy'):
             import cv2
             j = bytes(src.f.jpg)
             hgt, wid = src.buf.shape[:2]
-            res = Frame.from_jpg(j, {'k': -2}, hgt, wid, src.fmt) if op == 'from_jpg_dims' else Frame.from_jpg(j, {'k': -3}, None, None, src.fmt)
+            res = Frame.from_jpg(j, {'k': -2}, hgt, wid, src.fmt) if op != 'from_jpg_decoded' else Frame.from_jpg(j, {'k': -3}, None, None, src.fmt)
             dec = cv2.imdecode(np.frombuffer(j, np.uint8), cv2.IMREAD_COLOR if src.fmt != 'GRAY' else 0)
             self.add(res, dec, src.fmt, False, op)
             return
